@@ -2,6 +2,7 @@ package lens
 
 import (
 	"context"
+	"encoding/json"
 	"errors"
 	"fmt"
 	"math/rand/v2"
@@ -62,6 +63,7 @@ func (c08) Gen(r *rand.Rand, tier string, idx int) *core.Plan {
 		w[fmt.Sprintf("scopes%d", s)] = v
 	}
 	w["blobGlobal"] = int64(r.IntN(2))
+	w["emptyOverride"] = int64(r.IntN(2))
 	ntasks := 1 + r.IntN(3)
 	w["tasks"] = int64(ntasks)
 	n := 2 + r.IntN(11)
@@ -107,7 +109,12 @@ func c08Doc(w map[string]int64) *trustpolicy.OCIDocument {
 			scopes = []string{fmt.Sprintf("filler.example/s%d", s)}
 		}
 		l := c08Levels[s%len(c08Levels)]
-		sts = append(sts, world.Statement(fmt.Sprintf("statement-%d", s), l.level, l.override, []string{"ca:store" + fmt.Sprint(s), "tsa:t"}, []string{"x509.subject: CN=s" + fmt.Sprint(s) + ",O=Notary,ST=WA,C=US"}, scopes))
+		st := world.Statement(fmt.Sprintf("statement-%d", s), l.level, l.override, []string{"ca:store" + fmt.Sprint(s), "tsa:t"}, []string{"x509.subject: CN=s" + fmt.Sprint(s) + ",O=Notary,ST=WA,C=US"}, scopes)
+		if l.override == nil && w["emptyOverride"] == 1 {
+			// what decoding `"override": {}` yields: a map that is empty but not nil
+			st.SignatureVerification.Override = map[trustpolicy.ValidationType]trustpolicy.ValidationAction{}
+		}
+		sts = append(sts, st)
 	}
 	return world.OCIDoc(sts...)
 }
@@ -182,7 +189,11 @@ func (l c08) Exec(env *core.Env) *core.Result {
 		var sts []trustpolicy.BlobTrustPolicy
 		for i := 0; i < 3; i++ {
 			l := c08Levels[[]int{3, 4, 1}[i]] // two of the three blob statements carry a custom override map
-			sts = append(sts, world.BlobStatement(fmt.Sprintf("blob-%d", i), l.level, l.override, []string{"ca:b" + fmt.Sprint(i)}, []string{"*"}, i == 1 && w["blobGlobal"] == 1))
+			bst := world.BlobStatement(fmt.Sprintf("blob-%d", i), l.level, l.override, []string{"ca:b" + fmt.Sprint(i)}, []string{"*"}, i == 1 && w["blobGlobal"] == 1)
+			if l.override == nil && w["emptyOverride"] == 1 {
+				bst.SignatureVerification.Override = map[trustpolicy.ValidationType]trustpolicy.ValidationAction{}
+			}
+			sts = append(sts, bst)
 		}
 		return world.BlobDoc(sts...)
 	}
@@ -221,7 +232,7 @@ func (l c08) Exec(env *core.Env) *core.Result {
 						res.Violate("C08/no-statement-selected-where-one-applies", key, "error %v; statement %q applies", err, want.Name)
 					case want != nil && got.Name != want.Name:
 						res.Violate("C08/wrong-statement-selected", key, "selected %q for %q, the specification selects %q (scopes %v)", got.Name, path, want.Name, want.RegistryScopes)
-					case want != nil && !reflect.DeepEqual(*got, *want):
+					case want != nil && !sameStatement(*got, *want):
 						res.Violate("C08/selected-statement-differs-from-document", key, "statement %q handed out as %+v, the document says %+v", want.Name, *got, *want)
 					}
 					lastOCI = got
@@ -270,7 +281,7 @@ func (l c08) Exec(env *core.Env) *core.Result {
 						res.Violate("C08/blob-statement-selected-where-none-applies", name, "selected %q for %q", got.Name, name)
 					case want != nil && err != nil:
 						res.Violate("C08/no-blob-statement-selected-where-one-applies", name, "error %v; statement %q applies", err, want.Name)
-					case want != nil && !reflect.DeepEqual(*got, *want):
+					case want != nil && !sameStatement(*got, *want):
 						res.Violate("C08/selected-blob-statement-differs-from-document", fmt.Sprintf("%s after-mutation=%v", name, dirty), "statement handed out as %+v, the document says %+v", *got, *want)
 					}
 					lastBlob = got
@@ -373,4 +384,12 @@ func mutateStatement(name *string, sv *trustpolicy.SignatureVerification, stores
 	case 8:
 		*scopes = append(*scopes, "*")
 	}
+}
+
+// sameStatement compares two statements by content: a nil and an empty map or list are the same content
+// (how a private copy represents "no entries" is the implementation's business).
+func sameStatement(a, b any) bool {
+	ja, err1 := json.Marshal(a)
+	jb, err2 := json.Marshal(b)
+	return err1 == nil && err2 == nil && string(ja) == string(jb)
 }
